@@ -28,7 +28,7 @@ CHECKS.update({
 })
 
 CHECKS["C11"] = dict(
-    text="Proved in Lean for every batch, mask pattern, permutation and split point: the mask-and-scatter idiom is an element-wise conditional; the batched tau-energy stage exactly as coded (three masks, sampler calls on selected sub-batches, 8192-element iterator chunks, scatter, scaling) equals the per-event function event by event for any scalar type, fails as a whole when an event fails, and per-event maps commute with permutations and splits; repeated calls: the only stateful stage (exit probability) is history independent (C05). Observed on the real code for all ten stages (geometry both modes, spectra, tau energy/exit probability, decay altitude, optical, radio, SNR) with random numbers fixed: permutation, split points (incl. around 8192), three repeated calls, single-event batches, and byte-comparison of every input array (found F6, fixed). PARTIAL: for stages other than tau energy the 'stage = per-event map' premise is observed, not proved.",
+    text="Proved in Lean for every batch, mask pattern, permutation and split point: the mask-and-scatter idiom is an element-wise conditional; the batched tau-energy stage exactly as coded (three masks, sampler calls on selected sub-batches, 8192-element iterator chunks, scatter, scaling) and the batched exit-probability stage (in-place floor, masks, sub-batches, scatter, 10**) equal their per-event functions event by event for any scalar type; the tau-energy batch fails as a whole when an event fails; the batch of the masked row interpolation (flat np.where index lists, row-major mask selection) is row-aligned on every batch of non-decreasing rows (C18.vecInterp_batch_aligned); and per-event maps commute with permutations and splits; repeated calls: the only stateful stage (exit probability) is history independent (C05). Observed on the real code for all ten stages (geometry both modes, spectra, tau energy/exit probability, decay altitude, optical, radio, SNR) with random numbers fixed: permutation, split points (incl. around 8192), three repeated calls, single-event batches, and byte-comparison of every input array (found F6, fixed). PARTIAL: for stages other than tau energy the 'stage = per-event map' premise is observed, not proved.",
     ref="4 C11", technique="Lean 4 list theorems (scatter/select, chunking, batch = pointwise) + batch-model correspondence + metamorphic exploration of every stage of the real code")
 
 CHECKS["C14"] = dict(
